@@ -136,7 +136,10 @@ def check_lint(project, src, filename):
     kind, exc = parses(src, filename)
     if kind == 'other':
         return None, 'out-of-domain'
-    st, res = call_guarded(lambda: lint(project, src, filename))
+    def call():
+        with project.check_changes():       # every request of the server runs inside this context
+            return lint(project, src, filename)
+    st, res = call_guarded(call)
     if st == 'timeout':
         return None, 'timeout'
     if st == 'exc':
@@ -169,7 +172,10 @@ def check_cursor(project, which, src, pos, filename):
     mkind, mexc = parses(marked_text(src, pos), filename)
     if mkind == 'other':
         return None, 'out-of-domain'
-    st, res = call_guarded(lambda: fn(project, src, pos, filename))
+    def call():
+        with project.check_changes():
+            return fn(project, src, pos, filename)
+    st, res = call_guarded(call)
     if st == 'timeout':
         return None, 'timeout'
     if st == 'exc':
@@ -405,6 +411,12 @@ CYCLIC_TEMPLATES = [
     'try:\n    e = e\nexcept e as e:\n    e.x',
     'def f():\n    global f\n    f = f()\n    return f\nf().x',
     'class A:\n    @property\n    def p(self): return self.p\nA().p.x',
+    'for _ in x:\n    class A(B): pass\n    class B(A): pass\n    A().x\nB.y',
+    'def f():\n    class A(B): pass\n    return A\nclass B(f()): pass\nB().y\nf().z',
+    'if c:\n    class A(object): pass\nelse:\n    class A(dict): pass\nclass B(A): pass\nB().x',
+    'import cyc_e\ncyc_e.e_other.FromF.f_attr.e_own.x\ncyc_e.cyc_f.cyc_e.e_own',
+    'from cyc_f import FromF\nFromF().f_attr.cyc_f.f_own',
+    'import cyc_e, cyc_f\nclass K(cyc_f.FromF):\n    def m(self):\n        self.q = cyc_e.e_other.FromF()\n        return self.q.f_attr\nK().m().cyc_f.x',
     'class A:\n    def __get__(self, *a): return A()\n    @A\n    def q(self): return self.q\nA().q.x',
 ]
 
@@ -424,7 +436,8 @@ def w_cyclic(job):
         for ln, line in enumerate(lines, 1):
             for col in range(len(line) + 1):
                 pl.append(((ln, col), 'cyclic'))
-        run_text(sh, project, src, fn, pl, 'cyclic-template', False)
+        for rnd_ in range(3):
+            run_text(sh, project, src, fn, pl if rnd_ == 0 else pl[::7], 'cyclic-template', False)
     # generated assignment / inheritance / call graphs over a tiny name pool
     names = ['a', 'b', 'c']
 
